@@ -50,6 +50,24 @@ def gen_cases(tier, seed):
             for oo in (OPTS[0], OPTS[2], OPTS[3]):
                 base = {"nodes": nodes, "edges": edges, "flow": {e: (float(f) if wt == "float" else f) for e, f in fl.items()}, "planted": [], "wt": wt, "mode": "edge"}
                 cases.append({"spec": I.spec_of(base), "mode": "edge", "wt": wt, "cons": [], "cov": 1.0, "ignore": [], "oo": oo, "tag": f"corpus{i}"})
+    # constraints can force more paths than any unconstrained bound (m - n + 2 = 3 here, 4 crossing constraints need 4 paths)
+    dd_n = ["s", "a", "b", "m", "c", "d", "t"]
+    dd_e = [("s", "a"), ("a", "m"), ("s", "b"), ("b", "m"), ("m", "c"), ("c", "t"), ("m", "d"), ("d", "t")]
+    dd_c = [[["a", "m"], ["m", "c"]], [["a", "m"], ["m", "d"]], [["b", "m"], ["m", "c"]], [["b", "m"], ["m", "d"]]]
+    for wt in ("int", "float"):
+        for f in (2, 6):
+            for oo in (OPTS[0], {"optimize_with_greedy": False}, {"use_min_gen_set_lowerbound": True}):
+                base = {"nodes": dd_n, "edges": dd_e, "flow": {e: (float(f) if wt == "float" else f) for e in dd_e}, "planted": [], "wt": wt, "mode": "edge"}
+                for cons in (dd_c, dd_c[:3], [dd_c[0], dd_c[3]]):
+                    cases.append({"spec": I.spec_of(base), "mode": "edge", "wt": wt, "cons": cons, "cov": 1.0, "ignore": [], "oo": oo, "tag": "corpus-dd"})
+    # a hub whose (in-edge, out-edge) pairs are all constrained: the optimum (8) exceeds the number of edges (6)
+    hub_n = ["a", "b", "c", "d", "h", "x", "y"]; hub_e = [("a", "h"), ("b", "h"), ("c", "h"), ("d", "h"), ("h", "x"), ("h", "y")]
+    hub_f = {("a", "h"): 2, ("b", "h"): 2, ("c", "h"): 2, ("d", "h"): 2, ("h", "x"): 4, ("h", "y"): 4}
+    hub_c = [[[u, "h"], ["h", w]] for u in ("a", "b", "c", "d") for w in ("x", "y")]
+    for wt in ("int", "float"):
+        base = {"nodes": hub_n, "edges": hub_e, "flow": {e: (float(f) if wt == "float" else f) for e, f in hub_f.items()}, "planted": [], "wt": wt, "mode": "edge"}
+        for cons in (hub_c, hub_c[:7]):
+            cases.append({"spec": I.spec_of(base), "mode": "edge", "wt": wt, "cons": cons, "cov": 1.0, "ignore": [], "oo": {}, "tag": "corpus-hub"})
     # scanning windows (small window) in which every edge is ignored: node-weighted double diamond with two ignored branch nodes
     dn = ["a", "b", "c", "d", "e", "f", "g"]; de = [("a", "b"), ("a", "c"), ("b", "d"), ("c", "d"), ("d", "e"), ("d", "f"), ("e", "g"), ("f", "g")]
     for wt in ("int", "float"):
@@ -88,11 +106,19 @@ def gen_cases(tier, seed):
                 if cross and rng.random() < 0.8:
                     easy = gen.jl(gen.rand_subpath_constraints(rng, pl, n=1, contiguous_prob=1.0))
                     c["cons"] = [cross] + easy; c["cov"] = 1.0; c.pop("covlen", None)
+                    if rng.random() < 0.4:
+                        # more crossings through the same kind of shared node: every (in-edge, out-edge) pair of one inner node
+                        G0 = gen.build(I.spec_of(base))
+                        mids = [v for v in G0.nodes if G0.in_degree(v) >= 2 and G0.out_degree(v) >= 2]
+                        if mids:
+                            v = rng.choice(mids)
+                            pairs = [[[u, v], [v, w]] for u in G0.predecessors(v) for w in G0.successors(v)]
+                            c["cons"] = pairs[:6] + easy
                     if rng.random() < 0.7:
                         c["oo"] = rng.choice([{}, {"use_min_gen_set_lowerbound": True}, {"optimize_with_flow_safe_paths": False, "optimize_with_safe_paths": False}])   # greedy stays on
                 c["cov"] = rng.choice([1.0, 1.0, 0.75, 0.5])
                 if rng.random() < 0.2:
-                    c["covlen"] = rng.choice([1.0, 0.6]); c["cov"] = 1.0
+                    c["covlen"] = rng.choice([1.0, 0.6, 0.45, 0.8]); c["cov"] = 1.0
                 elif rng.random() < (0.6 if cross else 0.25):
                     c["lenattr_only"] = True      # length attribute named, coverage by edge count: the lengths must not matter
             elif base["mode"] == "node":
@@ -115,7 +141,8 @@ def gen_cases(tier, seed):
             v = rng.choice(base["nodes"]); drop.append(v); c["implicit_ignore"] = [v]
         extra = {}
         if c.get("covlen"):
-            extra = {e: {"len": rng.choice([1, 2, 5])} for e in base["edges"] if rng.random() < 0.8}
+            lv = rng.choice([[1, 2, 5], [0.5, 1.5, 2.25], [0.3, 1.7, 2.9, 4.1]])        # lengths need not be integers
+            extra = {e: {"len": rng.choice(lv)} for e in base["edges"] if rng.random() < 0.8}
         elif c.get("lenattr_only"):
             extra = {e: {"len": rng.choice([2, 5, 9])} for e in base["edges"] if rng.random() < 0.8}
         c["spec"] = I.spec_of(base, drop_attr=drop, garbage=garbage, extra_eattr=extra)
